@@ -53,6 +53,20 @@ def eval_closed(t):
             x, y = eval_closed(a[0]), eval_closed(a[1])
             return {"Add": lambda: x + y, "Sub": lambda: x - y, "Mult": lambda: x * y, "Mod": lambda: x % y,
                     "FloorDiv": lambda: x // y, "Pow": lambda: x ** y}[t.f]()
+        if t.f in ("RShift", "LShift", "BitAnd", "BitOr", "BitXor", "Div", "min2", "max2", "Or", "And",
+                   "Eq", "NotEq", "Lt", "LtE", "Gt", "GtE") and len(a) == 2:
+            x, y = eval_closed(a[0]), eval_closed(a[1])
+            if t.f in ("RShift", "LShift") and not (isinstance(y, int) and 0 <= y <= 1 << 20):
+                raise AnalysisError("shift by %r is outside the interpretable range" % (y,))
+            return {"RShift": lambda: x >> y, "LShift": lambda: x << y, "BitAnd": lambda: x & y, "BitOr": lambda: x | y,
+                    "BitXor": lambda: x ^ y, "Div": lambda: x / y, "min2": lambda: min(x, y), "max2": lambda: max(x, y),
+                    "Or": lambda: x or y, "And": lambda: x and y, "Eq": lambda: x == y, "NotEq": lambda: x != y,
+                    "Lt": lambda: x < y, "LtE": lambda: x <= y, "Gt": lambda: x > y, "GtE": lambda: x >= y}[t.f]()
+        if t.f in ("int", "math.ceil", "math.floor", "Not", "bool", "USub") and len(a) == 1:
+            import math
+            x = eval_closed(a[0])
+            return {"int": lambda: int(x), "math.ceil": lambda: math.ceil(x), "math.floor": lambda: math.floor(x),
+                    "Not": lambda: not x, "bool": lambda: bool(x), "USub": lambda: -x}[t.f]()
         if t.f == "pow" and len(a) == 3:
             return pow(eval_closed(a[0]), eval_closed(a[1]), eval_closed(a[2]))
         if t.f == "be2int":
